@@ -1,5 +1,5 @@
 (* Properties/C02.v — require() selects the file the Node.js CommonJS resolution algorithm selects. *)
-From GN Require Import Common.Base Model.Paths Model.Require Spec.NodeResolve Proofs.ResolveProofs.
+From GN Require Import Common.Base Model.Paths Model.Require Spec.NodeResolve Proofs.ResolveProofs Gen.RequireGlue Model.ResolveSrc.
 Open Scope Z_scope.
 
 (* for every file tree, every absolute requiring directory and every request — relative, absolute or bare — the probing
@@ -28,6 +28,11 @@ Theorem C02_io_error_reported : forall fs cs1 p cs2,
   select fs (cs1 ++ CMod p :: cs2) = SIOError (render p).
 Proof. exact io_error_reported. Qed.
 Print Assumptions C02_io_error_reported.
+
+(* the model's candidate order was written against this text of resolve.go (regenerated every run) *)
+Theorem C02_source_tie : Gen.RequireGlue.resolve_src = Model.ResolveSrc.expected_resolve_src.
+Proof. exact resolve_source_unchanged. Qed.
+Print Assumptions C02_source_tie.
 
 Example C02_nonvacuous :
   let fs := [([47;97;47;110;111;100;101;95;109;111;100;117;108;101;115;47;109;46;106;115], FJs []);          (* /a/node_modules/m.js *)
